@@ -248,6 +248,14 @@ void Provider::update(const Service &service)
         if (!d->confirmed || fqName != d->srvRecord.name()) {
             d->confirm();
         } else {
+
+            // The service is already confirmed under this name; a probe that
+            // is still pending for a previously requested name is obsolete
+            // and must not replace these records when it completes
+            if (d->prober) {
+                delete d->prober;
+                d->prober = nullptr;
+            }
             d->publish();
         }
     }
